@@ -54,6 +54,10 @@ CLAIMED = {
          "All 256 x 5 (lambda, rate) points are enumerated on every run: the exact t (big-integer evaluation of the bound at t and t-1) predicts the polynomial lengths at which compute_dimensions must change its row count, so a t off by one is visible through the public API at lengths up to 2^41 without allocating anything; generated honest proofs of the three code-based schemes are deserialized into mirror structs and must contain exactly t columns/paths at the transcript-derived positions (checked by an independent reference verifier); the row encoder must be linear with the declared output length. Found and led to the repair of F14 (field size approximated by 2^bits).",
          "calculate_t is only reachable through compute_dimensions and proofs; Brakedown's t is observed at its default parameters only (always capped at the codeword length for <= 12 variables).",
          "DESIGN.md §4 C13"),
+ "C19": ("property-based testing (proptest): exact size laws over serialized artefacts of generated transcripts; analytic proof-size model for the code-based schemes evaluated with the exact t",
+         "Exploration: sizes of commitments, proofs and batch proofs of generated transcripts are compared with per-scheme equalities built from element sizes measured on the curve types (so they hold for every degree, bound, hiding setting, number of polynomials and labels generated); for Ligero/Brakedown the proof may not exceed 1.25x what its own matrix shape accounts for and 4x the best power-of-two shape of an analytic model using the exact t of C13. One root cause (F15: 2-row matrix whenever every column is opened) is a recorded known finding; other excesses are violations.",
+         "The 4x law is the property's own; 'best shape' ranges over succinct shapes (t below the codeword length) whenever the library's shape is succinct - without that restriction the model would prefer shipping the whole polynomial at a few hundred coefficients, which is not what the property means. Brakedown's alternative shapes are modelled by its rate.",
+         "DESIGN.md §4 C19"),
 }
 
 NOT_YET = "check not built yet in this round (planned, see DESIGN.md §4)"
